@@ -209,7 +209,12 @@ def c11_check(solvers, decls, res, budget=400):
             try:
                 lits = [outputs.term_to_ref(t, ctx) for t in split_terms(terms)]
             except sexpr.SexprError:
-                bad.append(("malformed-trace", tk, terms[:200]))
+                if len(terms) > 50000:
+                    # terms are printed as trees: a line of megabytes can be cut by the CPU limit of the run.  Not a verdict.
+                    res.inconclusive += 1
+                    res.inc("oversized_theory_clause_skipped")
+                else:
+                    bad.append(("malformed-trace", tk, terms[:200]))
                 continue
             header = ref_header(decls, ctx)
             body = "(assert (not (or false %s)))" % " ".join(lits)
